@@ -63,6 +63,7 @@ class Ctx:
         self.cache = {}
         self.seq = 0
         self.known = load_known()
+        self.sweep_cap = None
 
     def known_match(self, pid, violation):
         return match_known(pid, violation, self.known)
@@ -109,6 +110,7 @@ def _worker_chunk(pid, base_seed, tier, indices, keep_specs):
     faulthandler.enable()
     prop = load_prop(pid)
     c = ctx()
+    c.sweep_cap = SWEEP_CAP[tier]
     out = []
     for idx in indices:
         try:
@@ -269,7 +271,7 @@ def run_batch(pid, tier, base_seed, n_runs, workers, n_fixed, keep=6, chunk_time
     return recs
 
 
-TIER_RUNS = {}
+SWEEP_CAP = {"quick": 6000, "thorough": 20000}
 
 
 def check(pid, tier, seed=None, runs=None, workers=None, write_evidence=True, quiet=False):
